@@ -711,9 +711,9 @@ pub fn leaf(max_zoom: u8, pbf: bool, really_compressed: bool, max_side: u32) -> 
 	cfg.heavy_payloads = false;
 	cfg.really_compressed = really_compressed;
 	cfg.adverts = vec![Advert::Tight, Advert::Tight, Advert::Loose(1), Advert::Loose(2)];
-	(gen::set_spec(cfg), leaf_kind(|_| true)).prop_map(move |(mut spec, kind)| {
+	(gen::set_spec(cfg), leaf_kind(|_| true), prop::bool::weighted(0.4)).prop_map(move |(mut spec, kind, foreign)| {
 		if pbf {
-			spec.pay = Pay::Mvt;
+			spec.pay = if foreign { Pay::MvtForeign } else { Pay::Mvt };
 			spec.really_compressed = true;
 		}
 		Leaf { spec, kind }
@@ -817,7 +817,13 @@ pub fn overlay_leaves(force_format: Option<Fmt>) -> impl Strategy<Value = Vec<Le
 				let spec = SetSpec {
 					tag: format!("src{i}"),
 					levels,
-					pay: if format == Fmt::Pbf { Pay::Mvt } else { Pay::CoordText },
+					pay: if format != Fmt::Pbf {
+						Pay::CoordText
+					} else if (lseed >> 7) % 5 < 2 {
+						Pay::MvtForeign
+					} else {
+						Pay::Mvt
+					},
 					format,
 					comp,
 					really_compressed: true,
